@@ -253,7 +253,8 @@ for _p in ("C01", "C02", "C03", "C04", "C05", "C10", "C11", "C13", "C14", "C16")
     profile(_p, mc=f"RetryMC_{_p}.cfg", export=f"RetryMC_{_p}x.cfg",
             variants=WALL if _p == "C02" else (FOUR + TIMEOUT_VARIANTS if _p in ("C13", "C01") else
                                                (FOUR[:3] if _p == "C10" else FOUR)),
-            n_random={"quick": 1500, "thorough": 30000})
+            n_random={"quick": 1500, "thorough": 30000},
+            exports_extra=["RetryMC_C10y.cfg"] if _p == "C10" else [])
 
 
 def export_behaviours(cfgfile: str, tag: str, module: str = "RetryMC.tla"):
@@ -322,6 +323,14 @@ def check(prop: str, tier: str) -> Report:
     configs, behs, ex = export_behaviours(ex_cfg, f"{prop}-exp")
     variants = pf["variants"]
     n_replayed, mism = replay_behaviours(configs, behs, variants)
+    extra_exports: dict = {}
+    for xcfg in pf.get("exports_extra", []):
+        xconfigs, xbehs, xres = export_behaviours(pick_cfg(xcfg[:-4], tier), f"{prop}-exp2")
+        xn, xm = replay_behaviours(xconfigs, xbehs, variants)
+        n_replayed += xn
+        mism += xm
+        extra_exports[xcfg] = {"behaviours_exported": len(xbehs), "export_states": xres.distinct,
+                               "replays": xn, "replay_mismatches": len(xm)}
     rand = random_traces(pf["n_random"][tier], prop)
     walldiff = [t for t in mism if t.get("walldiff")]
     mism = [t for t in mism if not t.get("walldiff")]
@@ -429,7 +438,7 @@ def check(prop: str, tier: str) -> Report:
         "exhaustive": True, "canary": "phantom invocation rejected",
         "samples": [{"cfg": configs[behs[i]["c"] - 1], "predicted_and_observed_trace": behs[i]["h"]}
                     for i in (0, len(behs) // 2)] + [{"random_scenario_trace": rand[0]["ev"][:14]}],
-        **extra_cov, **sim_cov,
+        **extra_cov, **sim_cov, **({"extra_exports": extra_exports} if extra_exports else {}),
     })
     rep.assumptions += [
         "virtual monotonic clock, whole ticks of 2**-6 s; the clock advances only inside the "
